@@ -793,15 +793,39 @@ def _d11(chk, fb, fns):
             continue
         cfg = f.cfg
         stores = []
+        # a row bound to a reference local first ('std::vector<double>& row = xi_[j]; row[a] = row[b];')
+        rowrefs = {}
+        for dn in f.all_nodes():
+            if dn["k"] == "DeclStmt":
+                for d in dn["decls"]:
+                    if d.get("init") is not None and (d.get("ty") or "").endswith("&"):
+                        i0 = strip(d["init"])
+                        if is_call(i0) and i0["callee"]["name"] == "operator[]" and "obj" in i0:
+                            rowrefs[d["id"]] = i0
+        sub11 = local_inits(f)
+
+        def rsub(node):
+            t = render(node, sub11)
+            for did, i0 in rowrefs.items():
+                nm = [d_["name"] for dn_ in f.all_nodes() if dn_["k"] == "DeclStmt" for d_ in dn_["decls"] if d_["id"] == did]
+                if nm:
+                    t = re.sub(r"\b%s\b" % re.escape(nm[0]), render(i0, sub11), t)
+            return t
         for x in f.all_nodes():
             if x["k"] == "BinaryOperator" and x.get("op") == "=":
                 l_ = strip(kids(x)[0])
                 if is_call(l_) and l_["callee"]["name"] == "operator[]" and "obj" in l_:
                     o_ = strip(f.obj(l_))
+                    if o_ is not None and o_["k"] == "DeclRefExpr" and o_["decl"]["id"] in rowrefs:
+                        o_ = rowrefs[o_["decl"]["id"]]
+                        root = strip(f.obj(o_))
+                        if root is not None and root["k"] == "MemberExpr" and root["member"].get("this"):
+                            stores.append((x, root["member"]["name"], render(f.args(o_)[0], sub11), render(f.args(l_)[0], sub11), rsub(l_), rsub(kids(x)[1])))
+                        continue
                     if is_call(o_) and o_["callee"]["name"] == "operator[]" and "obj" in o_:
                         root = strip(f.obj(o_))
                         if root is not None and root["k"] == "MemberExpr" and root["member"].get("this"):
-                            stores.append((x, root["member"]["name"], render(f.args(o_)[0]), render(f.args(l_)[0]), render(l_), render(kids(x)[1])))
+                            stores.append((x, root["member"]["name"], render(f.args(o_)[0], sub11), render(f.args(l_)[0], sub11), rsub(l_), rsub(kids(x)[1])))
         for i_, (x1, m1, r1, c1, t1, rhs1) in enumerate(stores):
             for (x2, m2, r2, c2, t2, rhs2) in stores[i_ + 1:]:
                 if m1 != m2 or r1 != r2 or c1 == c2:
